@@ -662,7 +662,13 @@ func injectPass(name string, sig *types.Signature, calls []call, set *ProviderSe
 			ig.p("%s\n", c.Text)
 		}
 	}
-	ig.p("func %s(", name)
+	if recv := sig.Recv(); recv != nil {
+		// The injector is a method: keep its receiver. The body never refers
+		// to it, so it stays unnamed.
+		ig.p("func (%s) %s(", types.TypeString(recv.Type(), ig.g.qualifyPkg), name)
+	} else {
+		ig.p("func %s(", name)
+	}
 	for i := 0; i < params.Len(); i++ {
 		if i > 0 {
 			ig.p(", ")
